@@ -9,6 +9,8 @@ package main
 import (
 	"encoding/hex"
 	"fmt"
+	"runtime"
+	"sync/atomic"
 	"time"
 )
 
@@ -75,9 +77,15 @@ func within(ch chan struct{}, d time.Duration) bool {
 }
 
 func (r *runner) recordSkip(op []interface{}, t *txInfo, ret int, hang bool, pan string) {
-	r.steps = append(r.steps, stepJ{Op: op, Ret: ret, Hang: hang, Panic: pan, API: true, Gone: []int{}, Snap: r.last, Skip: true, Par: 1, tx: t})
-	if hang || pan != "" {
+	st := stepJ{Op: op, Ret: ret, Hang: hang, Panic: pan, API: true, Gone: []int{}, Snap: r.last, Skip: true, Par: 1, tx: t}
+	if hang {
+		st.Dump, st.Held = poolStacks(), true
+	}
+	r.steps = append(r.steps, st)
+	if hang || pan != "" { // abandoned pool: its blocked goroutines join the baseline
 		r.dead = true
+		time.Sleep(10 * time.Millisecond)
+		baseG = runtime.NumGoroutine()
 	}
 }
 
@@ -107,6 +115,8 @@ func (r *runner) par(a *txInfo, va, puba int, b parOp) {
 		m.mu.Unlock()
 	}
 	ha := r.arm(a, va, puba)
+	r.holding = true
+	defer func() { r.holding = false }()
 	ra := async(func() bool { return r.pool.Add(a.tx) })
 	select {
 	case <-ha.arrived:
@@ -116,6 +126,25 @@ func (r *runner) par(a *txInfo, va, puba int, b parOp) {
 		r.recordSkip(opA, a, 0, true, "")
 		return
 	}
+	// a reader keeps calling the read API for the whole overlap (results unchecked): with the pool's read lock in place
+	// it simply waits its turn; a reader that forgot the lock is reported by the race detector (the harness is built -race)
+	var stopReader atomic.Bool
+	readerDone := make(chan struct{})
+	go func() {
+		defer close(readerDone)
+		defer func() { _ = recover() }()
+		id := a.tx.ID
+		for !stopReader.Load() {
+			r.pool.Get(id)
+			r.pool.GetAll()
+			r.pool.GetProcessable()
+			runtime.Gosched()
+		}
+	}()
+	defer func() {
+		stopReader.Store(true)
+		within(readerDone, watchdog)
+	}()
 	var hb *hold
 	var rb *asyncRes
 	switch b.kind {
@@ -163,6 +192,7 @@ func (r *runner) par(a *txInfo, va, puba int, b parOp) {
 	if r.dead {
 		return
 	}
+	first := len(r.steps) - 1
 	switch b.kind {
 	case "add":
 		r.record([]interface{}{"add", b.t.num, b.t.sender, b.t.nonce, b.t.fee, b.t.prio, b.v, b.pub}, b.t, b2i(rb.ret), hangB, rb.pan)
@@ -171,6 +201,11 @@ func (r *runner) par(a *txInfo, va, puba int, b parOp) {
 	default:
 		r.steps = append(r.steps, stepJ{Op: []interface{}{"begin"}, Ret: 1, API: true, Gone: []int{}, Snap: r.last, Skip: true})
 		r.record([]interface{}{"finish", b.ans}, nil, 1, hangB, rb.pan)
+	}
+	// no snapshot exists between the overlapped operations: the ids that disappeared are known for the pair only;
+	// the unobserved steps carry the same list, the evaluator decides which of them each step dropped
+	for i := first; i < len(r.steps)-1; i++ {
+		r.steps[i].Gone = r.steps[len(r.steps)-1].Gone
 	}
 }
 
